@@ -9,6 +9,7 @@ import (
 	"sort"
 	"strconv"
 	"strings"
+	"sync"
 	"time"
 	"unicode/utf8"
 )
@@ -277,6 +278,12 @@ func toGo(v Value) interface{} {
 			return namedString(txt)
 		case "stringer":
 			return stringerValue{txt}
+		case "enum":
+			return enumText(enumIndex(txt))
+		case "uenum":
+			return uenumText(enumIndex(txt))
+		case "fenum":
+			return fenumText(enumIndex(txt))
 		case "err":
 			return errors.New(txt)
 		}
@@ -735,6 +742,41 @@ func namedScalar(v Value) interface{} {
 }
 
 type stringerValue struct{ s string }
+
+// enumText / uenumText / fenumText: numeric kinds whose String method gives the text (a Go enum with names); the
+// value is the position of its text in enumTexts
+type enumText int
+type uenumText uint8
+type fenumText float64
+
+var (
+	enumMu sync.Mutex
+	// (position 0 is not used: a zero is "empty" for the default filter, the model's values are texts)
+	enumTexts = []string{"\x00unused"}
+)
+
+func enumIndex(txt string) int {
+	enumMu.Lock()
+	defer enumMu.Unlock()
+	for i, t := range enumTexts {
+		if t == txt {
+			return i
+		}
+	}
+	enumTexts = append(enumTexts, txt)
+	return len(enumTexts) - 1
+}
+func enumName(i int) string {
+	enumMu.Lock()
+	defer enumMu.Unlock()
+	if i < 0 || i >= len(enumTexts) {
+		return ""
+	}
+	return enumTexts[i]
+}
+func (e enumText) String() string  { return enumName(int(e)) }
+func (e uenumText) String() string { return enumName(int(e)) }
+func (e fenumText) String() string { return enumName(int(e)) }
 
 func (v stringerValue) String() string { return v.s }
 
